@@ -355,10 +355,19 @@ def run(chk):
         chk.ob("R4", sib.cfgs[name].module, sib.cfgs[name].func, f"{name} Union: visible = {S.show(sel)}", sel == S.IN,
                f"{name}: visible columns after a union are {S.show(sel)}, documented: the left table's names and order")  # fmt: skip
 
-    _union_scenarios(chk, m)
+    # R5v: the refusals of `_union_impl` decided on the interpreted function; its raise statements are only read (R5) when
+    # that is not possible
+    from ..interp import SymbolicBranch as _SB5
+
+    try:
+        _union_scenarios(chk, m)
+        union_decided = True
+    except (AnalysisError, _SB5) as e:
+        chk.undecided.append(f"R5v: _union_impl could not be interpreted ({str(e)[:140]})")
+        union_decided = False
 
     # ---- R5
-    instances = [
+    instances = [] if union_decided else [
         ("different back ends -> TypeError", "TypeError", ["backend"]),
         ("grouped left input -> ValueError", "ValueError", ["left", "partition_by"]),
         ("grouped right input -> ValueError", "ValueError", ["right", "partition_by"]),
@@ -372,13 +381,16 @@ def run(chk):
         )
         chk.ob("R5", vb, ui, label, hit, f"_union_impl has no `raise {exc}` guarded by {needles}: {label.split(' ->')[0]} is no longer refused")
     src = norm(ui)
-    chk.ob("R5", vb, ui, "visible names compared as sets of name_to_uuid keys", "left_cols = set(left._cache.name_to_uuid.keys())" in src and "right_cols = set(right._cache.name_to_uuid.keys())" in src,
+    if union_decided:
+        chk.ok("R5", vb, ui, "refusals of _union_impl: decided by R5v on the interpreted function")
+    _ob5 = chk.ob if not union_decided else (lambda *a, **k: None)
+    _ob5("R5", vb, ui, "visible names compared as sets of name_to_uuid keys", "left_cols = set(left._cache.name_to_uuid.keys())" in src and "right_cols = set(right._cache.name_to_uuid.keys())" in src,
            "the name comparison is not made on the visible columns of both tables")  # fmt: skip
     tr = [n for n in ast.walk(ui) if isinstance(n, ast.Try)]
     good = any("lca_type([left_dtype, right_dtype])" in norm(t_) and any("DataTypeError" in norm(h.type) and any(isinstance(s, ast.Raise) and "TypeError" in norm(s.exc) for s in h.body) for h in t_.handlers) for t_ in tr)
-    chk.ob("R5", vb, ui, "no common type for a column pair -> TypeError", good, "columns without a common type are no longer refused with TypeError")
+    _ob5("R5", vb, ui, "no common type for a column pair -> TypeError", good, "columns without a common type are no longer refused with TypeError")
     loop_ok = any(isinstance(n, ast.For) and norm(n.iter) == "left_cols" and "name_to_uuid[col_name]" in norm(n) for n in ast.walk(ui))
-    chk.ob("R5", vb, ui, "type check pairs columns by name", loop_ok, "column types are not compared pairwise by name")
+    _ob5("R5", vb, ui, "type check pairs columns by name", loop_ok, "column types are not compared pairwise by name")
 
     # ---- R6
     cs = [c for c in calls_in(ui) if dotted(c.func) == "check_subquery"]
@@ -389,7 +401,7 @@ def run(chk):
            "_union_impl does not check both inputs for a required subquery before updating the cache with both caches")  # fmt: skip
 
 
-def _union_scenarios(chk, m):
+def _union_scenarios(chk, m, rule="R5v"):
     """R5v: `_union_impl` interpreted (verbsim) on stub tables"""
     from ..catalogue import DT
     from ..rules.c17 import m_types_env
@@ -419,6 +431,6 @@ def _union_scenarios(chk, m):
         right = w.table("r", cfg["r"], grouped=cfg.get("rg", ()), hidden=cfg.get("rh", ()), backend=cfg.get("rb", "polars"))
         got = w.run(f, [left, right])
         n += 1
-        chk.ob("R5v", vb, f, f"union: {label} -> {' '.join(want)}", tuple(got[:len(want)]) == want,
+        chk.ob(rule, vb, f, f"union: {label} -> {' '.join(want)}", tuple(got[:len(want)]) == want,
                f"union validation, scenario `{label}`: expected {' '.join(want)}, the interpreted `_union_impl` gives {got[:3]}")  # fmt: skip
-    chk.floor("R5v", "union validation scenarios", n, 10)
+    chk.floor(rule, "union validation scenarios", n, 10)
